@@ -1,6 +1,7 @@
 import BoltonsVerif.Generated.Src_strutils_lines
 import BoltonsVerif.Generated.Src_jsonutils_lines
 import BoltonsVerif.Generated.Src_jsonutils_lines_text
+import BoltonsVerif.Generated.Src_jsonutils_jsonl
 import BoltonsVerif.Generated.C19_LineEndings
 import BoltonsVerif.PyRtLemmas
 import BoltonsVerif.C19.Model
@@ -700,6 +701,115 @@ example : (match reverse_iter_lines_text (β := Nat) 9 [195, 169, 10, 98, 13, 10
     | .ok ls => ls | .error _ => [['?']]) = [[], ['c'], ['b'], ['é']] := by decide
 
 example : (match reverse_iter_lines_text (β := Nat) 9 [97, 10, 255, 10] 0 2 true with
+    | .error PyExc.ValueError => true | _ => false) = true := by decide
+
+/-! ### ROUND 3f: `JSONLIterator.next` on a binary file: the stored line iterator is the list of the lines it still yields -/
+
+theorem asciiWs_eq_pyWs (c : Nat) : PyRtC19.asciiWs c = pyWs c := by
+  rw [Bool.eq_iff_iff]
+  simp [PyRtC19.asciiWs, pyWs, Generated.lstripSet, or_assoc]
+
+theorem crlf_eq_lineEnd (c : Nat) : ([13, 10] : List Nat).contains c = lineEnd c := by
+  rw [Bool.eq_iff_iff]
+  simp [lineEnd, Generated.rstripSet, or_comm]
+
+/-- `line.lstrip().rstrip(b'\r\n')` with the declared operations IS the model's `lineNorm` at the regenerated strip sets -/
+theorem strip_nat (l : List Nat) :
+    PyRtC19.rstripSet (PyRtC19.lstripWs l) (PyRtC19.bytesLit [13, 10] : List Nat) = lineNorm pyWs l := by
+  have h1 : (fun c : Nat => PyRtC19.asciiWs (PyRtC19.Byte.val c)) = pyWs := by
+    funext c; exact asciiWs_eq_pyWs c
+  have h2 : (fun c : Nat => (List.map PyRtC19.Byte.val ([13, 10] : List Nat)).contains (PyRtC19.Byte.val c)) = lineEnd := by
+    funext c; exact crlf_eq_lineEnd c
+  simp only [PyRtC19.rstripSet, PyRtC19.lstripWs, bytesLit_nat, lineNorm, rstripBy, lstripBy, h1, h2]
+
+/-- one `next()` of the model: the first line that contributes an outcome decides — an object (with the lines left), or
+    the error `next()` raises in strict mode; StopIteration when no line is left -/
+def nextModel {α : Type} (parse : List Nat → Except PyExc α) (ignore : Bool) :
+    List (List Nat) → Except PyExc (α × List (List Nat))
+  | [] => .error PyExc.StopIteration
+  | l :: ls =>
+    match outcomeOf pyWs parse ignore l with
+    | none => nextModel parse ignore ls
+    | some (.ok v) => .ok (v, ls)
+    | some (.error e) => .error e
+
+theorem jsonl_loop1_spec {α : Type} [Inhabited α] (parse : List Nat → Except PyExc α) (ignore : Bool)
+    (k kb : JSONLIterator_next.St Nat α → Except PyExc (α × List (List Nat))) :
+    ∀ (n : Nat) (ls : List (List Nat)) (s : JSONLIterator_next.St Nat α), ls.length + 1 ≤ n →
+      s.line_iter = ls → s.ignore_errors = ignore →
+      @JSONLIterator_next.loop1 Nat α _ _ _ _ ⟨parse⟩ k kb (fun e _ => .error e) n s = nextModel parse ignore ls := by
+  intro n
+  induction n with
+  | zero => intro ls s h; omega
+  | succ n ih =>
+    intro ls s hn h1 h2
+    cases ls with
+    | nil =>
+      simp only [JSONLIterator_next.loop1, h1, PyRtC19.iterNext?, nextModel]
+    | cons l ls =>
+      have hrec : ∀ s' : JSONLIterator_next.St Nat α, s'.line_iter = ls → s'.ignore_errors = ignore →
+          @JSONLIterator_next.loop1 Nat α _ _ _ _ ⟨parse⟩ k kb (fun e _ => .error e) n s' = nextModel parse ignore ls :=
+        fun s' a b => ih ls s' (by simp only [List.length_cons] at hn; omega) a b
+      simp only [JSONLIterator_next.loop1, h1, h2, PyRtC19.iterNext?, PyRtC19.iterRest, List.tail_cons, strip_nat,
+        PyRtC19.jsonLoadsFails, PyRtC19.jsonLoads?, nextModel, outcomeOf]
+      by_cases h0 : lineNorm pyWs l = []
+      · simp only [h0, not_true_eq_false, not_false_eq_true, ne_eq, if_true]
+        exact hrec _ rfl rfl
+      · simp only [h0, not_true_eq_false, not_false_eq_true, ne_eq, if_false]
+        cases hp : parse (lineNorm pyWs l) with
+        | ok v => simp
+        | error e =>
+          cases ignore with
+          | true => simp; exact hrec _ rfl rfl
+          | false => simp
+
+/-- **the tie of `JSONLIterator.next`** (binary file): for EVERY `json.loads` (`parse`, a pure function of the line, as the
+    model assumes), `ignore_errors` flag and list `ls` of lines the stored line iterator still yields, with any loop fuel
+    above their number, the generated definition is the model's `nextModel`: it skips the lines `outcomeOf` gives nothing
+    for (blank after `lstrip()` / `rstrip(b'\r\n')` at the regenerated strip sets; not parseable under `ignore_errors`)
+    and returns the first object with the lines left, or raises what `json.loads` raised (strict mode), or StopIteration;
+    never `OutOfFuel` -/
+theorem src_jsonl_next_eq_model {α : Type} [Inhabited α] (parse : List Nat → Except PyExc α) (ignore : Bool)
+    (ls : List (List Nat)) (lfuel : Nat) (hf : ls.length + 1 ≤ lfuel) :
+    @JSONLIterator_next Nat α _ _ _ _ ⟨parse⟩ lfuel ls ignore = nextModel parse ignore ls := by
+  simp only [JSONLIterator_next, JSONLIterator_next.body]
+  exact jsonl_loop1_spec parse ignore _ _ lfuel ls _ hf rfl rfl
+
+/-- what `next()` returns or raises is the head of the model's `outcomes` (StopIteration when there is none) -/
+theorem nextModel_head {α : Type} (parse : List Nat → Except PyExc α) (ignore : Bool) (ls : List (List Nat)) :
+    (nextModel parse ignore ls).map Prod.fst
+      = (match outcomes pyWs parse ignore ls with | [] => .error PyExc.StopIteration | r :: _ => r) := by
+  induction ls with
+  | nil => rfl
+  | cons l ls ih =>
+    simp only [nextModel, outcomes, List.filterMap_cons] at ih ⊢
+    cases h : outcomeOf pyWs parse ignore l with
+    | none => simpa [h] using ih
+    | some r => cases r <;> simp [Except.map]
+
+/-- and the lines left after a successful `next()` produce the rest of `outcomes`: draining `next()` yields `outcomes` -/
+theorem nextModel_rest {α : Type} (parse : List Nat → Except PyExc α) (ignore : Bool) (ls rest : List (List Nat)) (v : α)
+    (h : nextModel parse ignore ls = .ok (v, rest)) :
+    outcomes pyWs parse ignore ls = .ok v :: outcomes pyWs parse ignore rest := by
+  induction ls with
+  | nil => simp [nextModel] at h
+  | cons l ls ih =>
+    simp only [nextModel] at h
+    simp only [outcomes, List.filterMap_cons] at ih ⊢
+    cases ho : outcomeOf pyWs parse ignore l with
+    | none => rw [ho] at h; simpa using ih h
+    | some r =>
+      rw [ho] at h
+      cases r with
+      | error e => simp at h
+      | ok w => simp at h; obtain ⟨rfl, rfl⟩ := h; simp
+
+example : (match @JSONLIterator_next Nat Nat _ _ _ _ ⟨fun b => if b = [120] then .error PyExc.ValueError else .ok b.length⟩
+      9 [[32, 10], [120], [9, 49, 50, 13, 10], [51]] true with
+    | .ok (v, rest) => (v, rest) | .error _ => (99, [])) = (2, [[51]]) := by decide
+
+example : (match @JSONLIterator_next Nat Nat _ _ _ _ ⟨fun b => if b = [120] then .error PyExc.ValueError else .ok b.length⟩
+      9 [[32, 10], [120], [49]] false with
     | .error PyExc.ValueError => true | _ => false) = true := by decide
 
 end C19
